@@ -299,7 +299,9 @@ func primitives(c *vlib.Check) int64 {
 				l, lerr := primitive.LengthOfValue(val)
 				chk("Value", l, lerr, func(w *bytes.Buffer) error { return primitive.WriteValue(val, w, v) }, fmt.Sprintf("type %d len %d %v", val.Type, sz, v))
 				l, lerr = primitive.LengthOfPositionalValues([]*primitive.Value{val, val})
-				chk("PositionalValues", l, lerr, func(w *bytes.Buffer) error { return primitive.WritePositionalValues([]*primitive.Value{val, val}, w, v) }, fmt.Sprintf("2 x type %d len %d", val.Type, sz))
+				chk("PositionalValues", l, lerr, func(w *bytes.Buffer) error {
+					return primitive.WritePositionalValues([]*primitive.Value{val, val}, w, v)
+				}, fmt.Sprintf("2 x type %d len %d", val.Type, sz))
 				l, lerr = primitive.LengthOfNamedValues(map[string]*primitive.Value{"a": val, s: val})
 				chk("NamedValues", l, lerr, func(w *bytes.Buffer) error {
 					return primitive.WriteNamedValues(map[string]*primitive.Value{"a": val, s: val}, w, v)
